@@ -805,7 +805,7 @@ def check_c14(tier, seed):
                                  "observed": {"exit": rc, "message": out[-400:]}, "reproduce": "kessoku migrate -o out.go " + " ".join(patterns)})
         R.coverage["failure_kinds"] = fail_rows
         R.samples = [{"case": c["desc"], "exit": c["rc"], "migrated": (c.get("text") or "")[:700]} for c in cases[:4]]
-        R.coverage.update({"evaluations": len(cases) + len(fail_rows) + nh, "programs": len(cases), "distinct_nontrivial": len(set(c["desc"] for c in written)),
+        R.coverage.update({"evaluations": len(cases) + len(fail_rows) + nh + nt, "programs": len(cases), "distinct_nontrivial": len(set(c["desc"] for c in written)),
                            "histories": nh, "histories_with_collision": collisions, "end_to_end": dict(stats),
                            "rule": "seeded wire packages using 1-4 external packages (same package name under different paths, package name != last path element, version directories) under implicit / explicit / clashing local names, in type position (Bind, Struct, FieldsOf, InterfaceValue) and expression position (provider functions, Value), spread over 1-3 wire files merged into one output; each successful output is checked for gofmt stability, byte identity over 3 runs, set declarations, and compiled with the wire files set aside; five failure kinds x fresh/existing output path; distinct = distinct case descriptions that produced a file"})
     finally:
